@@ -867,4 +867,10 @@ example :
     effective (startup [(Gen.portVar, [54, 48, 48, 48])] none [[114, 119, 115]]) Gen.portVar = some [54, 48, 48, 48] ∧
     effective (startup [] none [[114, 119, 115]]) Gen.portVar = some [55, 56, 55, 56] := by decide +kernel
 
+
+/-- `Server::setup` installs the defaults FIRST and folds the three sources over them after that (the calls are read from the
+    current source by the translator; the model's `startup` is `bootstrap ∘ setDefaults`, and the harness runs the two calls
+    itself — swapped, every default would overwrite what the sources said) -/
+theorem C12_setup_order : Gen.setupCalls = ["set_default_values", "bootstrap"] := by decide
+
 end Rws.C12
